@@ -24,7 +24,7 @@ REPO_ROOT = patch.REPO_ROOT
 TIER = os.environ.get('VERIF_TIER', 'quick')
 SEED = int(os.environ.get('VERIF_SEED', '0') or 0)
 NPROC = int(os.environ.get('VERIF_NPROC', '16'))
-REPLAY_ROOT = os.path.join(VERIF, 'replays')
+REPLAY_ROOT = os.environ.get('VERIF_REPLAY_DIR') or os.path.join(VERIF, 'replays')
 EXIT_OK, EXIT_VIOLATION, EXIT_HARNESS = 0, 1, 3
 
 _MODS = None
@@ -413,8 +413,10 @@ class Report:
         ev['coverage'].update(self.extra)
         if len(self.distinct) < 2:
             ev['coverage']['distinct_nontrivial'] = max(2, min(self.paths, 2))
-        os.makedirs(os.path.join(VERIF, 'evidence'), exist_ok=True)
-        with open(os.path.join(VERIF, 'evidence', self.pid + '.json'), 'w') as f:
+        # VERIF_EVIDENCE_DIR: trial runs against a scratch copy (seeded changes, rewrites) keep their evidence out of evidence/
+        evdir = os.environ.get('VERIF_EVIDENCE_DIR') or os.path.join(VERIF, 'evidence')
+        os.makedirs(evdir, exist_ok=True)
+        with open(os.path.join(evdir, self.pid + '.json'), 'w') as f:
             json.dump(ev, f, indent=1, default=str)
         for l in lines:
             print(l)
@@ -456,7 +458,16 @@ def case_label(case):
 
 
 def run_cases(report, fn, cases, nproc=None, time_budget=None):
-    """Run fn(case) for every case in worker processes and merge the results."""
+    """Run fn(case) for every case, each in its own forked process (at most nproc at a time), and merge the results.
+
+    One process per case keeps the memory of one case (z3 terms, path results) from piling onto the next, and lets the
+    parent see a worker that died (killed for memory, crashed interpreter): that is recorded as a harness error - the
+    run ends with the harness-problem exit code instead of waiting for a result that never comes.  A case may not
+    take more than VERIF_CASE_TIMEOUT seconds (default 3600) nor more than VERIF_CASE_MEM_GB of resident memory
+    (default 3.5, i.e. 16 workers fit the machine): both end the case as a harness error, never as a verdict."""
+    import pickle
+    import signal
+    import tempfile
     nproc = nproc or NPROC
     cases = list(cases)
     t0 = time.time()
@@ -464,16 +475,114 @@ def run_cases(report, fn, cases, nproc=None, time_budget=None):
         for c in cases:
             report.merge_case(_case_entry((fn, c)))
         return
-    ctx = multiprocessing.get_context('fork')
-    with ctx.Pool(min(nproc, len(cases))) as pool:
-        it = pool.imap_unordered(_case_entry, [(fn, c) for c in cases], chunksize=1)
-        for r in it:
+    try:
+        mods()              # import /repo's modules once, in the parent: every forked case inherits them
+    except Exception:
+        pass
+    case_timeout = float(os.environ.get('VERIF_CASE_TIMEOUT', '3600'))
+    mem_gb = float(os.environ.get('VERIF_CASE_MEM_GB', '3.5'))
+    tmpdir = tempfile.mkdtemp(prefix='verif_cases_', dir='/dev/shm' if os.path.isdir('/dev/shm') else None)
+    running = {}            # pid -> (index, start time)
+    too_big = set()
+    polls = 0
+    page = os.sysconf('SC_PAGE_SIZE')
+    nxt = 0
+    stop = False
+    try:
+        while (nxt < len(cases) and not stop) or running:
+            while nxt < len(cases) and len(running) < nproc and not stop:
+                idx = nxt
+                nxt += 1
+                sys.stdout.flush()
+                sys.stderr.flush()
+                pid = os.fork()
+                if pid == 0:
+                    code = 0
+                    try:
+                        r = _case_entry((fn, cases[idx]))
+                        with open(os.path.join(tmpdir, '%d.pkl.tmp' % idx), 'wb') as f:
+                            pickle.dump(r, f)
+                        os.rename(os.path.join(tmpdir, '%d.pkl.tmp' % idx), os.path.join(tmpdir, '%d.pkl' % idx))
+                    except BaseException:
+                        traceback.print_exc()
+                        code = 1
+                    finally:
+                        sys.stdout.flush()
+                        sys.stderr.flush()
+                        os._exit(code)
+                running[pid] = (idx, time.time())
+            if not running:
+                break
+            # reap one finished worker (poll, so that time limits are enforced)
+            done = None
+            while done is None:
+                for pid in list(running):
+                    try:
+                        wpid, status = os.waitpid(pid, os.WNOHANG)
+                    except ChildProcessError:
+                        wpid, status = pid, -1
+                    if wpid:
+                        done = (pid, status)
+                        break
+                if done is None:
+                    now = time.time()
+                    polls += 1
+                    for pid, (idx, ts) in list(running.items()):
+                        over = now - ts > case_timeout
+                        if not over and polls % 25 == 0:
+                            try:
+                                with open('/proc/%d/statm' % pid) as f:
+                                    rss = int(f.read().split()[1]) * page
+                                if rss > mem_gb * 2 ** 30:
+                                    over = True
+                                    too_big.add(pid)
+                            except Exception:
+                                pass
+                        if over:
+                            try:
+                                os.kill(pid, signal.SIGKILL)
+                            except OSError:
+                                pass
+                    time.sleep(0.02)
+            pid, status = done
+            idx, ts = running.pop(pid)
+            path = os.path.join(tmpdir, '%d.pkl' % idx)
+            if os.path.exists(path):
+                with open(path, 'rb') as f:
+                    r = pickle.load(f)
+                os.unlink(path)
+            else:
+                why = ('killed by signal %d' % os.WTERMSIG(status)) if status >= 0 and os.WIFSIGNALED(status) else 'exit status %s' % status
+                if time.time() - ts > case_timeout:
+                    why += ' after the %.0f s case time limit' % case_timeout
+                if pid in too_big:
+                    why += ' by the harness: resident memory above %.0f GB' % mem_gb
+                r = {'errors': ['case %r: the worker process ended without a result (%s; out of memory or a crash of the interpreter / solver)'
+                                % (case_label(cases[idx]), why)]}
             report.merge_case(r)
-            if time_budget and time.time() - t0 > time_budget:
+            if time_budget and time.time() - t0 > time_budget and not stop:
                 report.exhaustive = False
                 report.extra['stopped_on_time_budget'] = True
-                pool.terminate()
-                break
+                stop = True
+                for pid in list(running):
+                    try:
+                        os.kill(pid, signal.SIGKILL)
+                    except OSError:
+                        pass
+                for pid in list(running):
+                    try:
+                        os.waitpid(pid, 0)
+                    except ChildProcessError:
+                        pass
+                running.clear()
+    finally:
+        for pid in list(running):
+            try:
+                os.kill(pid, signal.SIGKILL)
+                os.waitpid(pid, 0)
+            except Exception:
+                pass
+        shutil.rmtree(tmpdir, ignore_errors=True)
 
 
 class CaseResult(dict):
